@@ -171,7 +171,11 @@ def st_gate(N, kinds=None):
     if 'CNOT' in kinds and N >= 2:
         opts.append(st.fixed_dictionaries({'kind': st.just('CNOT'),
                                            'qubits': st.permutations(list(range(N))).map(lambda p: list(p[:2]))}))
-    return st.one_of(*opts)
+    # qubit labels are handed over as Python ints (usual) or as NumPy integer scalars, e.g. elements of an index array (pyclifford only)
+    return st.tuples(st.one_of(*opts), st.sampled_from([None] * 8 + LABEL_FORMS)).map(lambda t: dict(t[0], labels=t[1]) if t[1] and t[0]['kind'] != 'rotc' else t[0])
+
+
+LABEL_FORMS = ['int64', 'intp', 'uint8', 'uint32', 'uint64']
 
 
 def st_program(N, max_len=10, kinds=None):
